@@ -139,15 +139,15 @@ Fixpoint Reach (items : list (sep * sem_step)) (x y : node) : Prop :=
   | (s, f) :: t => exists z lz w, In z (ex s x) /\ runs f z lz /\ In w lz /\ Reach t w y
   end.
 
-Definition wfitems (items : list (sep * sem_step)) : Prop := items_restore items /\ items_good doc items.
+Definition wfitems (items : list (sep * sem_step)) : Prop := items_restore items /\ items_good good items.
 
 Lemma wfitems_cons s f t : wfitems ((s, f) :: t) ->
-  (forall x, restores (f x)) /\ (forall x, good x -> okgl doc (f x)) /\ wfitems t.
+  (forall x, restores (f x)) /\ (forall x, good x -> okgl good (f x)) /\ wfitems t.
 Proof.
   intros [H1 H2]. inversion H1; subst. inversion H2; subst. cbn [snd] in *. repeat split; assumption.
 Qed.
 
-Lemma runs_good f x l : (forall x, good x -> okgl doc (f x)) -> good x -> runs f x l -> Forall good l.
+Lemma runs_good f x l : (forall x, good x -> okgl good (f x)) -> good x -> runs f x l -> Forall good l.
 Proof. intros Hg Gx H. eapply Hg; [exact Gx|exact H]. Qed.
 
 Lemma dedup_in_good l x : Forall good l -> (In x (step_dedup doc l) <-> In x l).
@@ -171,8 +171,8 @@ Proof.
     split.
     + intros r c' H. invb H as fr c1 E. apply lift_ok_inv in E. destruct E as [E ->]. rewrite Eex in E. injection E as <-.
       invb H as coll c2 Ec. destruct (FM1 _ _ Ec) as (-> & D & R).
-      assert (Gcoll : Forall good coll) by (eapply (okgl_flat_map_m doc f from Hg Gfrom); exact Ec).
-      destruct (IH (step_dedup doc coll) (step_dedup_good doc coll Gcoll)) as [IH1 _].
+      assert (Gcoll : Forall good coll) by (eapply (okgl_flat_map_m good f from Hg Gfrom); exact Ec).
+      destruct (IH (step_dedup doc coll) (step_dedup_good doc good coll Gcoll)) as [IH1 _].
       destruct (IH1 _ _ H) as (-> & Dt & Rt). split; [reflexivity|]. split.
       * intros x Hx z Hz. assert (Hzf : In z from) by (apply in_flat_map; exists x; auto).
         destruct (D z Hzf) as [lz Hlz]. exists lz. split; [exact Hlz|]. intros y Hy. apply Dt.
@@ -186,8 +186,8 @@ Proof.
       assert (Dfrom : forall z, In z from -> exists lz, runs f z lz).
       { intros z Hz. apply in_flat_map in Hz. destruct Hz as (x & Hx & Hz). destruct (D x Hx z Hz) as [lz [Hlz _]]. eauto. }
       destruct (FM2 Dfrom) as [coll Hcoll]. destruct (FM1 _ _ Hcoll) as (_ & _ & R).
-      assert (Gcoll : Forall good coll) by (eapply (okgl_flat_map_m doc f from Hg Gfrom); exact Hcoll).
-      destruct (IH (step_dedup doc coll) (step_dedup_good doc coll Gcoll)) as [_ IH2].
+      assert (Gcoll : Forall good coll) by (eapply (okgl_flat_map_m good f from Hg Gfrom); exact Hcoll).
+      destruct (IH (step_dedup doc coll) (step_dedup_good doc good coll Gcoll)) as [_ IH2].
       destruct IH2 as [r Hr2].
       { intros w Hw. apply (proj1 (dedup_in_good coll w Gcoll)) in Hw. apply (proj1 (R w)) in Hw. destruct Hw as (z & lz & Hz & Hlz & Hw).
         apply in_flat_map in Hz. destruct Hz as (x & Hx & Hz). destruct (D x Hx z Hz) as [lz' [Hlz' Dy]].
@@ -223,8 +223,8 @@ Proof.
   { apply flat_map_good. intros x Hx. apply ex_good. rewrite Forall_forall in GB. apply GB, Hx. }
   assert (Rrun : forall x, restores (run1 F1 rest x)).
   { intros x. unfold run1. apply restores_bind; [apply Hr|intros ns; apply restores_xstepops, Hwt]. }
-  assert (Grun : forall x, good x -> okgl doc (run1 F1 rest x)).
-  { intros x Gx c2 l c2' H2. unfold run1 in H2. invb H2 as ns c3 E. eapply (okgl_xstepops doc Hinv rest (proj2 Hwt) ns); [|exact H2]. eapply Hg; [exact Gx|exact E]. }
+  assert (Grun : forall x, good x -> okgl good (run1 F1 rest x)).
+  { intros x Gx c2 l c2' H2. unfold run1 in H2. invb H2 as ns c3 E. eapply (okgl_xstepops doc good not_ns_axis (good_axis doc Hinv) eq_refl rest (proj2 Hwt) ns); [|exact H2]. eapply Hg; [exact Gx|exact E]. }
   (* one start node *)
   assert (Run : forall z, good z ->
             (forall l, runs (run1 F1 rest) z l -> exists ns, runs F1 z ns /\ (forall y, In y ns -> Def rest y) /\
@@ -257,7 +257,7 @@ Proof.
     + intros x Hx z Hz. assert (Hzf : In z from) by (apply in_flat_map; exists x; auto).
       destruct (D z Hzf) as [lz Hlz]. destruct (Run z (Gof z Hzf)) as [R1 _]. destruct (R1 lz Hlz) as (ns & Hns & Dn & _).
       exists ns. auto.
-    + exists a0. split; [eapply (okgl_flat_map_m doc (run1 F1 rest) from Grun Gfrom); exact Ec|]. split; [apply Rchar; assumption|reflexivity].
+    + exists a0. split; [eapply (okgl_flat_map_m good (run1 F1 rest) from Grun Gfrom); exact Ec|]. split; [apply Rchar; assumption|reflexivity].
   - intros D.
     assert (Drun : forall z, In z from -> exists lz, runs (run1 F1 rest) z lz).
     { intros z Hz. pose proof Hz as Hzf. apply in_flat_map in Hz. destruct Hz as (x & Hx & Hz). destruct (D x Hx z Hz) as [ns [Hns Dn]].
@@ -265,7 +265,7 @@ Proof.
     destruct (FM2 Drun) as [coll Hcoll]. destruct (FM1 _ _ Hcoll) as (_ & _ & R). exists coll. split.
     + unfold path_sem. eapply bindM_ok_intro; [unfold lift; rewrite Eex; reflexivity|].
       eapply bindM_ok_intro; [exact Hcoll|reflexivity].
-    + split; [eapply (okgl_flat_map_m doc (run1 F1 rest) from Grun Gfrom); exact Hcoll|apply Rchar; assumption].
+    + split; [eapply (okgl_flat_map_m good (run1 F1 rest) from Grun Gfrom); exact Hcoll|apply Rchar; assumption].
 Qed.
 
 (** two step lists that select the same nodes give the same value *)
@@ -309,7 +309,7 @@ Inductive NI : list (sep * sem_step) -> list (sep * sem_step) -> Prop :=
 Lemma runs_okeq F F' z lz : step_okeq F F' -> good z -> (runs F z lz <-> runs F' z lz).
 Proof. intros H Gz. apply (H z Gz lz). Qed.
 
-Lemma NI_equiv items items' : NI items items' -> items_good doc items -> same_sel items items'.
+Lemma NI_equiv items items' : NI items items' -> items_good good items -> same_sel items items'.
 Proof.
   induction 1 as [|F F' t t' HF HN IH|F F' t t' HF HN IH]; intros Hg x Gx.
   - split; [reflexivity|intros y; reflexivity].
